@@ -307,6 +307,8 @@ pub struct Outcome {
     pub steps_done: usize,
     /// fallible allocation events observed per step (fault-free recording for enumeration)
     pub fallible: Vec<u32>,
+    /// first violation of a class that does not stop the run
+    pub soft: Option<Violation>,
 }
 
 #[derive(Clone, Copy, PartialEq, Eq, Debug)]
@@ -331,6 +333,10 @@ pub trait StepHook {
         None
     }
     fn text_line(&mut self, _line: &str) {}
+    /// a violation of a class that does not stop the run, noticed by the last `after_step`
+    fn take_soft(&mut self) -> Option<Violation> {
+        None
+    }
 }
 pub struct NoHook;
 impl StepHook for NoHook {}
@@ -429,7 +435,7 @@ fn block_of(w: &World, p: Pool, k: usize) -> usize {
 
 pub fn run_ops(ops: &[Op], opts: &RunOpts, stats: &mut Stats, hook: &mut dyn StepHook) -> Outcome {
     simalloc::begin_run(opts.cfg, opts.garbage_seed);
-    let mut out = Outcome { violation: None, harness_error: None, chain: 0x5EED, steps_done: 0, fallible: Vec::with_capacity(ops.len()) };
+    let mut out = Outcome { violation: None, harness_error: None, chain: 0x5EED, steps_done: 0, fallible: Vec::with_capacity(ops.len()), soft: None };
     let mut env = Env::new(opts.want_text);
     simalloc::track(true);
     let mut w = World::new();
@@ -531,6 +537,15 @@ pub fn run_ops(ops: &[Op], opts: &RunOpts, stats: &mut Stats, hook: &mut dyn Ste
         }
 
         // --- oracles
+        if let Some((class, detail)) = untracked(|| env.soft.take()) {
+            if out.soft.is_none() {
+                out.soft = Some(Violation { class, step: k, detail });
+            }
+        }
+        if let Some((class, detail)) = untracked(|| env.violation.take()) {
+            out.violation = Some(Violation { class, step: k, detail });
+            break;
+        }
         if c17 {
             simalloc::check_canaries();
             if let Some((v, serial)) = simalloc::take_violation() {
@@ -562,7 +577,13 @@ pub fn run_ops(ops: &[Op], opts: &RunOpts, stats: &mut Stats, hook: &mut dyn Ste
                 out.violation = Some(v);
                 break;
             }
-            Ok(None) => {}
+            Ok(None) => {
+                if let Some(v) = hook.take_soft() {
+                    if out.soft.is_none() {
+                        out.soft = Some(v);
+                    }
+                }
+            }
             Err(_) => {
                 // the oracle itself only calls read-only dashu operations (==, cmp, hash, accessors)
                 let p = take_panic();
